@@ -85,6 +85,7 @@ type Out struct {
 	AccessNotes   []string            `json:"access_notes"`
 	Acquisitions  []AcqSite           `json:"acquisitions"` // C10: Lock/RLock sites with the may-held sets (acquire.go)
 	AcqNotes      []string            `json:"acq_notes"`
+	LockExits     []LockExit          `json:"lock_exits"` // C10: what each entry point may still hold when it returns (acquire.go)
 }
 
 func main() {
